@@ -1,6 +1,7 @@
 package main
 
 import (
+	"go/types"
 	"crypto/sha1"
 	"encoding/json"
 	"flag"
@@ -52,7 +53,68 @@ func functionsFor(db *ContractDB, id string) []string {
 			out = append(out, name)
 		}
 	}
+	for name, c := range db.methods {
+		if hasTag(c.Tags, id) || hasTag(c.SafeTags, id) {
+			out = append(out, "method "+name)
+		}
+	}
+	for name, c := range db.ftypes {
+		if hasTag(c.Tags, id) || hasTag(c.SafeTags, id) {
+			out = append(out, "functype "+name)
+		}
+	}
 	sort.Strings(out)
+	return out
+}
+
+// verifyMethodImpls checks every implementation (in the two packages) of an
+// interface method against the contract declared for the interface method.
+func verifyMethodImpls(P *Program, db *ContractDB, key string, timeout int) []*FnResult {
+	c := db.methods[key]
+	i := strings.LastIndex(key, ".")
+	j := strings.Index(key, ".")
+	pkgName, ifName, mName := key[:j], key[j+1:i], key[i+1:]
+	pkgPath := pkgGldap
+	if pkgName == "testdirectory" {
+		pkgPath = pkgTD
+	}
+	var out []*FnResult
+	obj := P.tpkgs[pkgPath].Scope().Lookup(ifName)
+	if obj == nil {
+		return []*FnResult{{Fn: "method " + key, Errors: []string{"interface not found"}}}
+	}
+	iface, ok := obj.Type().Underlying().(*types.Interface)
+	if !ok {
+		return []*FnResult{{Fn: "method " + key, Errors: []string{"not an interface"}}}
+	}
+	for _, T := range P.ownTypes {
+		if _, isI := T.Underlying().(*types.Interface); isI {
+			continue
+		}
+		for _, TT := range []types.Type{types.NewPointer(T)} {
+			if !types.Implements(TT, iface) {
+				continue
+			}
+			ms := P.prog.MethodSets.MethodSet(TT)
+			sel := ms.Lookup(P.tpkgs[pkgPath], mName)
+			if sel == nil {
+				continue
+			}
+			fn := P.prog.MethodValue(sel)
+			if fn == nil || len(fn.Blocks) == 0 {
+				continue
+			}
+			cc := *c
+			cc.Name = "method " + key + " implemented by " + TT.String()
+			r := verifyFunction(P, db, fn, &cc, verifyOpts{timeoutMs: timeout, recvIface: obj.Type()}, nil)
+			r.Fn = shortName(fn) + " (refines " + key + ")"
+			out = append(out, r)
+			break
+		}
+	}
+	if len(out) == 0 {
+		out = append(out, &FnResult{Fn: "method " + key, Errors: []string{"no implementation found"}})
+	}
 	return out
 }
 
@@ -68,6 +130,14 @@ func cmdWorker(args []string) {
 	must(err)
 	var results []*FnResult
 	for _, name := range fs.Args() {
+		if strings.HasPrefix(name, "method ") {
+			results = append(results, verifyMethodImpls(P, db, strings.TrimPrefix(name, "method "), *timeout)...)
+			continue
+		}
+		if strings.HasPrefix(name, "functype ") {
+			results = append(results, verifyFuncTypeImpls(P, db, strings.TrimPrefix(name, "functype "), *timeout)...)
+			continue
+		}
 		fn := P.funcs[name]
 		c := db.funcs[name]
 		if fn == nil || c == nil {
@@ -385,3 +455,44 @@ func round3(f float64) float64 { return float64(int(f*1000)) / 1000 }
 var propertyAssumptions = map[string][]string{}
 
 func shapesOf(c *Contract) []*Shape { return nil }
+
+// verifyFuncTypeImpls checks every function literal of the two packages whose
+// signature is that of the named function type against the type's contract.
+func verifyFuncTypeImpls(P *Program, db *ContractDB, key string, timeout int) []*FnResult {
+	c := db.ftypes[key]
+	j := strings.Index(key, ".")
+	pkgPath := pkgGldap
+	if key[:j] == "testdirectory" {
+		pkgPath = pkgTD
+	}
+	obj := P.tpkgs[pkgPath].Scope().Lookup(key[j+1:])
+	if obj == nil {
+		return []*FnResult{{Fn: "functype " + key, Errors: []string{"type not found"}}}
+	}
+	sig, ok := obj.Type().Underlying().(*types.Signature)
+	if !ok {
+		return []*FnResult{{Fn: "functype " + key, Errors: []string{"not a function type"}}}
+	}
+	e := &Exec{P: P, db: db}
+	var out []*FnResult
+	for _, fn := range e.addrTaken() {
+		if !types.Identical(fn.Signature, sig) || len(fn.Blocks) == 0 || fn.Pkg == nil || fn.Pkg.Pkg.Path() != pkgPath {
+			continue
+		}
+		if strings.HasPrefix(fn.Name(), "Test") || strings.Contains(fn.String(), ".with") && strings.Contains(fn.String(), "Test") {
+			continue
+		}
+		cc := *c
+		if len(cc.Params) > 0 {
+			cc.Params = cc.Params[1:] // the function value itself is not a parameter of the literal
+		}
+		cc.Name = "functype " + key + " implemented by " + shortName(fn)
+		r := verifyFunction(P, db, fn, &cc, verifyOpts{timeoutMs: timeout}, nil)
+		r.Fn = shortName(fn) + " (refines " + key + ")"
+		out = append(out, r)
+	}
+	if len(out) == 0 {
+		out = append(out, &FnResult{Fn: "functype " + key, Errors: []string{"no function literal of this type found"}})
+	}
+	return out
+}
